@@ -116,6 +116,13 @@ CHECKS["C15"] = {
   "text": "Proved on the real bodies for symbolic plate shapes, anchors and well arrays (0-d, 1-D of any length, 2-D of any shape): WellShifter.__init__ raises KeyError / ValueError exactly when the anchor is off plate B / plate A does not fit, otherwise stores the anchor's offsets; shift / unshift return an array of the same shape with every id moved by (+/-dr, +/-dc) (index bounds follow from the constructor's check), KeyError for ids off the plate; rotate_cw maps (r,c) to (c, R-1-r), rotate_ccw to (C-1-c, r), same shape; lemmas: ccw after cw and four cw rotations are the identity, cw is injective and stays on the transposed plate, unshift after shift is the identity. " + _C15,
   "note": "Mixed: WellRandomizer (permutation from numpy's RandomState; determinism by seed is a property of the library) is covered by the bounded monitor only. unshift is specified on the image of shift.",
 }
+_C18 = _BOUNDED_ONLY.pop("C18")
+CHECKS["C18"] = {
+  "category": "other",
+  "technique": "contract-based deductive verification: optimize_partition_by against its decision table (all trough / non-trough x mode cases, functional postcondition); partition_by_column on lists of 0-3 symbolic triples (multiset of triples preserved, one column per group, columns and rows ascending) by symbolic execution of the real body incl. defaultdict / sorted / argsort models; bounded monitor for longer lists",
+  "text": "Proved: optimize_partition_by returns 'destination' exactly for (auto, trough source, non-trough destination) or an explicit 'destination', 'source' otherwise, ValueError for every other mode name, for all four labware-kind combinations. partition_by_column, for every list of 0-3 triples of symbolic well ids (rows A-Z, columns 1-99) and volumes, returns groups that contain exactly the input triples as a multiset with the three parallel lists aligned, each group in one column of the partitioning side, groups in strictly ascending column order, rows ascending within a group; ValueError for other mode names on non-empty input. " + _C18,
+  "note": "Mixed: list lengths above 3 are covered by the bounded monitor. numpy.argsort is modelled as 'a sorting permutation' (ties explored in given order for n<=2, by branching otherwise), sorted() by a sorting network, string order of two-digit column suffixes = numeric order (columns 1..99 as in the property).",
+}
 for _pid, _txt in _BOUNDED_ONLY.items():
     CHECKS[_pid] = {
         "category": "exploration",
